@@ -313,6 +313,29 @@ def run(chk):
         encs = run_type(chk, label, ty, good, bad, obj) or []
         pick = [encs[i] for i in sorted(set([0, len(encs) // 3, len(encs) // 2, len(encs) - 1]))] if encs else []
         every += [(label, ty, obj, v, e) for v, e in pick if len(e) < 4000]
+    # an array is written from any sized collection that can be iterated - tuple, deque, set, frozenset, a dict's keys or values -
+    # as its length followed by its elements in iteration order (what the same elements in a list give)
+    import collections
+    for (label, ty, good, bad), obj in zip(T, objs):
+        if ty[0] != 'Array':
+            continue
+        for v in good:
+            if not isinstance(v, list) or len(v) > 300:
+                continue
+            shapes = [('tuple', tuple(v)), ('deque', collections.deque(v))]
+            try:
+                if len(set(v)) == len(v) and v:
+                    shapes += [('set', set(v)), ('frozenset', frozenset(v)), ('dict keys', dict.fromkeys(v).keys()), ('dict values', {i: x for i, x in enumerate(v)}.values())]
+            except TypeError:
+                pass
+            for sname, coll in shapes:
+                want = impl_enc(obj, list(coll))
+                got = impl_enc(obj, coll)
+                chk.count('enc:container', [label, sname, repr(v)[:120]], True)
+                if got != want:
+                    chk.violation('enc', 'enc:container:%s:%s' % (label, sname), {'case': {'type': label, 'container': sname, 'elements': repr(list(coll))[:300]}, 'expected': want[1].hex()[:200] if want[0] == 'ok' else want, 'observed': got[1].hex()[:200] if got[0] == 'ok' else got},
+                                  '%s of a %s with elements %s: %s; the same elements in a list: %s' % (label, sname, repr(list(coll))[:60], 'raised ' + got[1] if got[0] != 'ok' else got[1].hex()[:40], want[1].hex()[:40] if want[0] == 'ok' else want))
+                    break
     # the encoders / decoders behave like functions: nothing is carried over from a call whose socket failed, nothing is shared
     # between threads (the verified outputs above are the reference)
     reent.after_failure(chk, 'reentrancy', [(label, obj.send, v, e) for label, ty, obj, v, e in every])
